@@ -4,8 +4,9 @@ Statements and property theorems only.
 
 Proved for all inputs: disjointness / bounds / size of the accepted data,
 rejection of overlaps, the memory image, the text round trip of all eight
-integer types and of strings, and that assembling the printed lines yields the
-image.  Floats: their decimal text is *measured* against the assembler; the
+integer types and of strings (partial: finding F15, the assembler's lexer
+rewrites two runes inside string literals), and that assembling the printed
+lines yields the image.  Floats: their decimal text is *measured* against the assembler; the
 theorems take the measured fact as the hypothesis `FloatsOK`.
 Placements at negative offsets are outside the property's quantifier.
 -/
@@ -378,33 +379,71 @@ theorem int_text_roundtrip (fparse : List Char → Nat → Option Nat) (pr : Nat
     simp only [Const.asm, hsg, Bool.false_eq_true, if_false, asmValue, parseIntLit_hexPad, hlen,
       if_true, Const.enc, wrap_nonneg_toNat _ v h0]
 
-/-- **C13 (strings).** For every byte string (and whatever Go's printability
-table says), the assembler reading the `%q` text with the printed length stores
-exactly the string's bytes. -/
-theorem string_text_roundtrip (fparse : List Char → Nat → Option Nat) (pr : Nat → Bool)
-    (bs : List Nat) (hb : ∀ b ∈ bs, b < 256) :
+theorem asmSubstAux_ascii (t : List Nat) (h : ∀ b ∈ t, b < 0x80) : asmSubstAux 0 t = t := by
+  induction t with
+  | nil => rfl
+  | cons b rest ih =>
+    have hb : b < 0x80 := h b List.mem_cons_self
+    have n1 : ¬ (b = 0xc2 ∧ rest.take 1 = [0xb7]) := by omega
+    have n2 : ¬ (b = 0xe2 ∧ rest.take 2 = [0x88, 0x95]) := by omega
+    simp only [asmSubstAux, n1, n2, if_false, ih (fun x hx => h x (List.mem_cons_of_mem _ hx))]
+
+/-- The assembler's lexer leaves the literal alone: it contains neither
+`·` (U+00B7) nor `∕` (U+2215) in raw form. -/
+def LexerSafe (lit : List Nat) : Prop := asmSubst lit = lit
+
+instance (lit : List Nat) : Decidable (LexerSafe lit) := by unfold LexerSafe; exact inferInstance
+
+/-- **C13 (strings), partial.** For every byte string whose `%q` text the
+assembler's lexer leaves alone, the assembler reading that text with the
+printed length stores exactly the string's bytes.
+MISSING for the full property (finding F15): Go's `%q` prints the printable
+runes U+00B7 and U+2215 raw, and cmd/asm rewrites them to `.` and `/` in every
+token, string literals included — see `string_text_fails_at_middle_dot`. -/
+theorem string_text_roundtrip_partial (fparse : List Char → Nat → Option Nat) (pr : Nat → Bool)
+    (bs : List Nat) (hb : ∀ b ∈ bs, b < 256) (hl : LexerSafe (Quote.quote pr bs)) :
     asmValue fparse (Const.str bs).size ((Const.str bs).asm pr) = some (Const.str bs).enc := by
-  simp only [Const.asm, asmValue, Quote.unquote_quote pr bs hb, Const.size, Const.enc,
+  unfold LexerSafe at hl
+  simp only [Const.asm, asmValue, hl, Quote.unquote_quote pr bs hb, Const.size, Const.enc,
     Nat.lt_irrefl, if_false, Nat.sub_self, List.replicate_zero, List.append_nil]
+
+/-- **C13 (strings), ASCII-only quoting.** If no rune ≥ 0x80 is printed raw
+(Go's `%+q`), the round trip holds for every byte string — the form the
+property needs; today's `$%q` does not have it. -/
+theorem string_text_roundtrip_ascii_mode (fparse : List Char → Nat → Option Nat)
+    (bs : List Nat) (hb : ∀ b ∈ bs, b < 256) :
+    asmValue fparse (Const.str bs).size ((Const.str bs).asm (fun _ => false)) = some (Const.str bs).enc :=
+  string_text_roundtrip_partial fparse _ bs hb
+    (asmSubstAux_ascii _ (Quote.quote_ascii bs hb))
+
+/-- **Witness of F15.** The one-rune string `·` (bytes c2 b7; Go's IsPrint says
+printable, so `%q` prints it raw) is stored by the assembler as `.` followed by
+a zero byte. -/
+theorem string_text_fails_at_middle_dot :
+    (Const.str [0xc2, 0xb7]).asm (fun r => r == 0xb7) = .str [0x22, 0xc2, 0xb7, 0x22] ∧
+    asmValue (fun _ _ => none) 2 ((Const.str [0xc2, 0xb7]).asm (fun r => r == 0xb7)) = some [0x2e, 0] ∧
+    asmValue (fun _ _ => none) 3 ((Const.str [0xe2, 0x88, 0x95]).asm (fun r => r == 0x2215)) = some [0x2f, 0, 0] := by
+  decide
 
 /-! ### Assembling the printed lines -/
 
 /-- Side conditions on the constants of a section: integer values are values of
-their type, string bytes are bytes, and — the measured part — the assembler
-converts each float's printed text to its bit pattern. -/
-def ConstOK (fparse : List Char → Nat → Option Nat) : Const → Prop
+their type, string bytes are bytes and the lexer leaves the literal alone (F15),
+and — the measured part — the assembler converts each float's printed text to
+its bit pattern. -/
+def ConstOK (fparse : List Char → Nat → Option Nat) (pr : Nat → Bool) : Const → Prop
   | .int ty v => ty ∈ intTypes ∧ ty.InRange v
   | .float n bits text => (n = 4 ∨ n = 8) ∧ fparse text n = some bits
-  | .str bs => ∀ b ∈ bs, b < 256
+  | .str bs => (∀ b ∈ bs, b < 256) ∧ LexerSafe (Quote.quote pr bs)
 
 theorem asmValue_const (fparse : List Char → Nat → Option Nat) (pr : Nat → Bool) (c : Const)
-    (h : ConstOK fparse c) : asmValue fparse c.size (c.asm pr) = some c.enc := by
+    (h : ConstOK fparse pr c) : asmValue fparse c.size (c.asm pr) = some c.enc := by
   cases c with
   | int ty v => exact int_text_roundtrip fparse pr ty h.1 v h.2
   | float n bits text =>
     simp only [ConstOK] at h
     simp only [Const.asm, asmValue, Const.size, h.1, if_true, h.2, Option.map, Const.enc]
-  | str bs => exact string_text_roundtrip fparse pr bs h
+  | str bs => exact string_text_roundtrip_partial fparse pr bs h.1 h.2
 
 theorem parseNat_intDec_nat (n : Nat) : parseNat 10 (intDec (n : Int)) = some n := by
   unfold intDec
@@ -414,7 +453,7 @@ theorem parseNat_intDec_nat (n : Nat) : parseNat 10 (intDec (n : Int)) = some n 
 
 theorem asmLines_texts (fparse : List Char → Nat → Option Nat) (pr : Nat → Bool) (data : List Datum)
     (last : Int) (hm : monotone data last = true) (h0 : 0 ≤ last)
-    (hc : ∀ d ∈ data, ConstOK fparse d.val) :
+    (hc : ∀ d ∈ data, ConstOK fparse pr d.val) :
     asmLines fparse (data.map (Datum.text pr)) last = some (data.map wr) := by
   induction data generalizing last with
   | nil => rfl
@@ -433,7 +472,7 @@ placed in increasing order (what the assembler demands), the assembler's
 reading of the printed DATA lines and GLOBL size — offsets `%+d`, lengths,
 constants in their text forms — produces exactly the image. -/
 theorem data_lines (fparse : List Char → Nat → Option Nat) (pr : Nat → Bool) (g : Global)
-    (h : Inv g) (hm : monotone g.data 0 = true) (hc : ∀ d ∈ g.data, ConstOK fparse d.val) :
+    (h : Inv g) (hm : monotone g.data 0 = true) (hc : ∀ d ∈ g.data, ConstOK fparse pr d.val) :
     assemble fparse (g.texts pr) = some (image g) := by
   unfold assemble Global.texts
   have hsz : parseNat 10 (intDec g.size) = some g.size.toNat := by
@@ -459,7 +498,7 @@ call sequence; if its data are in increasing order and its constants are fine
 every constant at its offset and zero elsewhere (`data_image`). -/
 theorem data_end_to_end (fparse : List Char → Nat → Option Nat) (pr : Nat → Bool) (ops : List Op)
     (hs : InScope ops) (hm : monotone (run {} ops).1.data 0 = true)
-    (hc : ∀ d ∈ (run {} ops).1.data, ConstOK fparse d.val) :
+    (hc : ∀ d ∈ (run {} ops).1.data, ConstOK fparse pr d.val) :
     assemble fparse ((run {} ops).1.texts pr) = some (image (run {} ops).1) :=
   data_lines fparse pr _ (inv_run {} ops inv_init hs) hm hc
 
@@ -487,6 +526,36 @@ example : assemble (fun _ _ => none)
     ((run {} [.place 0 (.int U32 1), .place 4 (.int I8 (-1)), .append (.str [0x41, 0])]).1.texts (fun _ => false)) =
     some [1, 0, 0, 0, 0xff, 0x41, 0] := by decide
 
+/-- Non-vacuity of `data_image` / `data_lines`: a concrete section with an
+integer, a float and a string meets every hypothesis. -/
+def exOps2 : List Op :=
+  [.place 0 (.int U32 1), .place 4 (.float 4 0x3dcccccd "0.1".toList), .append (.str [0x41, 0])]
+
+example : Inv (run {} exOps2).1 :=
+  inv_run {} exOps2 inv_init (by
+    intro off v h
+    simp only [exOps2, List.mem_cons, List.not_mem_nil, or_false] at h
+    rcases h with h | h | h <;> cases h <;> decide)
+
+example : monotone (run {} exOps2).1.data 0 = true := by decide
+
+example : ∀ d ∈ (run {} exOps2).1.data, ConstOK Float.asmFloat (fun _ => false) d.val := by
+  have hd : (run {} exOps2).1.data =
+      [⟨0, .int U32 1⟩, ⟨4, .float 4 0x3dcccccd "0.1".toList⟩, ⟨8, .str [0x41, 0]⟩] := by decide
+  rw [hd]
+  intro d h
+  simp only [List.mem_cons, List.not_mem_nil, or_false] at h
+  rcases h with h | h | h <;> subst h
+  · exact ⟨by decide, by decide⟩
+  · exact ⟨Or.inl rfl, by decide +kernel⟩
+  · refine ⟨?_, by decide⟩
+    intro b hb
+    simp only [List.mem_cons, List.not_mem_nil, or_false] at hb
+    rcases hb with hb | hb <;> subst hb <;> decide
+
+example : assemble Float.asmFloat ((run {} exOps2).1.texts (fun _ => false)) =
+    some [1, 0, 0, 0, 0xcd, 0xcc, 0xcc, 0x3d, 0x41, 0] := by decide +kernel
+
 /-- … and (witness of finding F14) a section whose data were accepted out of
 order is printed in insertion order, which the assembler rejects. -/
 theorem nonmonotone_rejected_witness :
@@ -510,7 +579,7 @@ theorem f32_text_fails_at_F11 :
     Float.directF32 f11Text = some 0x15ae43fd ∧
     Float.asmFloat f11Text 4 = some 0x15ae43fe ∧
     Float.asmFloat ('-' :: f11Text) 4 = some 0x95ae43fe ∧
-    ¬ ConstOK Float.asmFloat (.float 4 0x15ae43fd f11Text) := by
+    ¬ ConstOK Float.asmFloat (fun _ => false) (.float 4 0x15ae43fd f11Text) := by
   refine ⟨by decide +kernel, by decide +kernel, by decide +kernel, ?_⟩
   intro h
   have h2 : Float.asmFloat f11Text 4 = some 0x15ae43fe := by decide +kernel
@@ -518,10 +587,20 @@ theorem f32_text_fails_at_F11 :
   rw [h2] at h
   exact absurd h.2 (by decide)
 
+/-- Since the fix of F11 (operand/const.go falls back to the float64-exact
+decimal when the short one does not survive) the implementation prints this
+text for 0x15ae43fd, and the assembler's conversion gives the constant back. -/
+def f11TextFixed : List Char := "0.00000000000000000000000007038530691851209".toList
+
+theorem f32_exact_text_ok_at_F11 :
+    ConstOK Float.asmFloat (fun _ => false) (.float 4 0x15ae43fd f11TextFixed) ∧
+    ConstOK Float.asmFloat (fun _ => false) (.float 4 0x95ae43fd ('-' :: f11TextFixed)) :=
+  ⟨⟨Or.inl rfl, by decide +kernel⟩, ⟨Or.inl rfl, by decide +kernel⟩⟩
+
 /-- Non-vacuity of the float side condition: ordinary values satisfy it. -/
-example : ConstOK Float.asmFloat (.float 4 0x3dcccccd "0.1".toList) := by
+example : ConstOK Float.asmFloat (fun _ => false) (.float 4 0x3dcccccd "0.1".toList) := by
   refine ⟨Or.inl rfl, by decide +kernel⟩
-example : ConstOK Float.asmFloat (.float 8 0x8000000000000000 "-0.0".toList) := by
+example : ConstOK Float.asmFloat (fun _ => false) (.float 8 0x8000000000000000 "-0.0".toList) := by
   refine ⟨Or.inr rfl, by decide +kernel⟩
 
 end Avo.Data
